@@ -203,12 +203,28 @@ def sweepH : P String := do
   if lo + n > 4294967296 then throw "sweep range exceeds 2^32" else
   pure s!"canon={hex16 (sweepCanon n lo 0)} n={n}"
 
+def miscH : P String := do
+  let op ← tok
+  match op with
+  | "cmp" => do
+    let a ← hex32; let b ← hex32; done
+    let c := scalarCmp (canon a) (canon b)
+    pure s!"{c} {if c = 0 then 1 else 0}"
+  | "clamp" => do
+    let v ← hex32; let lo ← hex32; let hi ← hex32; done
+    match clampF v lo hi with
+    | some r => pure (fTok r)
+    | none => pure "panic"
+  | "deg" => do let v ← hex32; done; pure (fTok (degToRad v))
+  | "rad" => do let v ← hex32; done; pure (fTok (radToDeg v))
+  | _ => throw s!"bad misc op {op}"
+
 def handlers : List (String × (List String → String)) :=
   [("C19.canon", runP canonH), ("C19.abi.canon", runP canonH), ("C19.op", runP opH),
    ("C19.trig", runP trigH), ("C19.rot", runP rotH),
    ("C19.fx.from", runP fxFromH), ("C19.fx.to", runP fxToH), ("C19.fx.bin", runP fxBinH),
    ("C19.fx.neg", runP fxNegH), ("C19.fx.trig", runP fxTrigH), ("C19.abi.fx", runP abiFxH),
    ("C19.prng", runP prngH), ("C19.vec", runP vecH), ("C19.quat", runP quatH), ("C19.mat", runP matH),
-   ("C19.sweep", runP sweepH)]
+   ("C19.sweep", runP sweepH), ("C19.misc", runP miscH)]
 
 end Driver.C19
